@@ -39,7 +39,7 @@ CLAIMED = {
    note="Assumed: templates attach the renderer results as name= attributes; urllib.parse.quote never produces '#'; the object model is a tree (C02). hrefs built outside taglink (letter links, sidebar templates, search) and the anchor sets of the written files are decided by the bounded native scan of real output only. Known finding KF-C11-displaced-duplicates.",
    ref='6 C11'),
  'C12': dict(
-   text="Deductive: taglink creates a hyperlink only to a visible object (after the fix) - every caller inherits this modularly; the listing functions CommonPage.children/methods, PackagePage.children/methods, ObjContent._children, Module.submodules return only visible objects, all taken from the container's contents (sorted() modelled as a permutation, filtered generators by witness functions); assembleList drops names of hidden objects; _writeDocsFor writes no page for or below a hidden object; css_class carries ' private' exactly for PRIVATE objects and the sidebar item class starts with 'private' exactly for non-public ones; IndexPage.roots links only visible roots, from index.html.",
+   text="Deductive: taglink creates a hyperlink only to a visible object (after the fix) - every caller inherits this modularly; the listing functions CommonPage.children/methods, PackagePage.children/methods, ObjContent._children, Module.submodules return only visible objects, all taken from the container's contents (sorted() modelled as a permutation, filtered generators by witness functions); assembleList drops names of hidden objects; _writeDocsFor writes no page for or below a hidden object; css_class carries ' private' exactly for PRIVATE objects and the sidebar item class starts with 'private' exactly for non-public ones; IndexPage.roots links only visible roots, from index.html; UndocumentedSummaryPage.stuff lists and links only visible objects, relative to its own page, and its assertion on the kind cannot fail.",
    note="Assumed: isVisible/privacyClass as pure queries (verified against the documented rule under C13); stan constructors opaque; templates (HTML) not covered. Not under contract: table.ChildTable.rows, util.unmasked_attrs (set comprehension with two generators), summary.* index pages, search, TableRow/FunctionChild.class_ - decided by the bounded native scan of real output (8 privacy rule lists + hidden root + themes). Interpretation stated in DESIGN: a hidden base of a visible class shown as a plain name node is source text about the visible class.",
    ref='6 C12'),
  'C13': dict(
